@@ -811,10 +811,10 @@ class Executor:
         if st is not None:
             self.called.add(name)
             return st(self, args, ins)
+        if self.llvm is not None and name.startswith('github.com/onflow/crypto._Cfunc_'):
+            return self.llvm.call_from_go(self, name, args, ins)
         fn = self.prog.funcs.get(name)
         if fn is None or 'blocks' not in fn:
-            if name.startswith('github.com/onflow/crypto._Cfunc_') and self.llvm is not None:
-                return self.llvm.call_from_go(self, name, args, ins)
             # package initialisers of packages we do not model are no-ops
             if name.endswith('.init') or '.init#' in name:
                 return None
